@@ -6,6 +6,7 @@ import Torf.Lemmas.Codec
 import Torf.Lemmas.CodecLookup
 import Torf.Lemmas.Span
 import Torf.Lemmas.Magnet
+import Torf.Lemmas.Base32
 import Torf.Model.ReadStream
 namespace Torf.C06
 open Torf Torf.Bencode Torf.Codec Torf.ReadStream
@@ -147,6 +148,91 @@ theorem C06_magnet (env : Env) (H : Bytes → Bytes) (md : List (PyVal × PyVal)
   split at hg
   · exact (Except.ok.inj hg).symm
   · exact absurd hg (by simp)
+
+/-- a 20-byte digest in lower-case hex is accepted by `_INFOHASH_REGEX` -/
+theorem matchesInfohash_hexLower (d : Bytes) (hd : d.length = 20) :
+    matchesInfohash (Base32.hexLower d) = true := by
+  have hl := Base32.hexLower_length d
+  have ha : (Base32.hexLower d).all isHexDigitCI = true := by
+    rw [List.all_eq_true]
+    intro c hc
+    have := Base32.hexLower_all_hex d c hc
+    simp only [isHexDigitCI, Bool.or_eq_true, Bool.and_eq_true, decide_eq_true_eq]
+    omega
+  simp [matchesInfohash, hl, hd, ha]
+
+/-- **No `MagnetError`:** for a 20-byte digest function `magnet().xt` exists (and by `C06_magnet`
+    is `'urn:btih:' + infohash`). -/
+theorem C06_magnet_ok (env : Env) (H : Bytes → Bytes) (md : List (PyVal × PyVal)) (h : Bytes)
+    (hH : ∀ x, (H x).length = 20) (hh : infohash env H md = .ok h) :
+    magnetXtOf env H md = .ok (urnBtih ++ h) := by
+  obtain ⟨ib, _, rfl⟩ := C06_infohash_def env H md h hh
+  simp only [magnetXtOf, hh, magnetXt_urn, matchesInfohash_hexLower _ (hH ib), if_true]
+
+/-- **`b32decode(infohash_base32) == bytes.fromhex(infohash)` (= the digest).**  For every digest
+    function `H` (any output length, in particular all 20-byte digests): `infohash_base32`
+    never raises once `infohash` succeeds, and decoding it with `base64.b32decode` gives the
+    same bytes as un-hexing `infohash`, namely `H(info bytes)`.  Proved from the general
+    regrouping lemmas `Base32.b32decode_b32encode` (40-bit quanta ↔ 8 base-32 digits ↔ 5
+    base-256 digits, all four padded tails) and `b16decode_upper_hexLower`; no enumeration. -/
+theorem C06_base32 (env : Env) (H : Bytes → Bytes) (md : List (PyVal × PyVal)) (h : Bytes)
+    (hh : infohash env H md = .ok h) :
+    ∃ ib e, infoBytes env md = .ok ib ∧ infohashBase32 env H md = .ok e ∧
+      Base32.b32decode e = some (H ib) ∧ Base32.unhexLower h = some (H ib) := by
+  obtain ⟨ib, hib, rfl⟩ := C06_infohash_def env H md h hh
+  refine ⟨ib, Base32.b32encode (H ib), hib, ?_, Base32.b32decode_b32encode _,
+    Base32.unhexLower_hexLower _⟩
+  simp only [infohashBase32, hh, Base32.b16decode_upper_hexLower]
+
+/-- for 20-byte digests `infohash_base32` is 32 characters of `A-Z2-7` without padding (what
+    `_INFOHASH_REGEX` and BEP 9 expect) -/
+theorem C06_base32_shape (env : Env) (H : Bytes → Bytes) (md : List (PyVal × PyVal)) (e : Bytes)
+    (hH : ∀ x, (H x).length = 20) (he : infohashBase32 env H md = .ok e) :
+    e.length = 32 ∧ ∀ c ∈ e, (65 ≤ c.toNat ∧ c.toNat ≤ 90) ∨ (50 ≤ c.toNat ∧ c.toNat ≤ 55) := by
+  unfold infohashBase32 at he
+  split at he
+  · rename_i h hh
+    obtain ⟨ib, _, rfl⟩ := C06_infohash_def env H md h hh
+    simp only [Base32.b16decode_upper_hexLower, Except.ok.injEq] at he
+    subst he
+    have h5 : (H ib).length % 5 = 0 := by rw [hH]
+    exact ⟨by rw [Base32.b32encode_length_of_dvd _ h5, hH], Base32.b32encode_all_alpha_of_dvd _ h5⟩
+  · exact absurd he (by simp)
+
+/-! ### non-vacuity -/
+
+theorem ok_of_toOption {ε α : Type} {x : Except ε α} {a : α} (h : x.toOption = some a) :
+    x = .ok a := by
+  cases x with
+  | ok b => simp only [Except.toOption, Option.some.injEq] at h; rw [h]
+  | error e => simp [Except.toOption] at h
+
+/-- a validating environment, a 20-byte "digest" and a metainfo with a non-ASCII top-level key
+    sorting after `info`, a key sorting before it, a bool, a float and a tuple -/
+def exEnv : Env := { fromTs := fun _ => none, validate := fun _ => true }
+def exH : Bytes → Bytes := fun x => List.replicate 20 (UInt8.ofNat x.length)
+def exMd : List (PyVal × PyVal) :=
+  [(.str "é", .tuple [.bool true, .float (.fin 1 false false)]),
+   (.str "info", .dict [(.str "name", .str "a"), (.str "piece length", .int 16384)]),
+   (.str "a", .datetime (some 5))]
+
+def exDump : Bytes :=
+  [100, 49, 58, 97, 105, 53, 101, 52, 58, 105, 110, 102, 111, 100, 52, 58, 110, 97, 109, 101, 49,
+   58, 97, 49, 50, 58, 112, 105, 101, 99, 101, 32, 108, 101, 110, 103, 116, 104, 105, 49, 54, 51,
+   56, 52, 101, 101, 50, 58, 195, 169, 108, 105, 49, 101, 105, 49, 101, 101, 101]
+   -- d1:ai5e4:infod4:name1:a12:piece lengthi16384ee2:él i1e i1e ee
+
+/-- non-vacuity of `C06_span`, `C06_magnet`, `C06_magnet_ok`, `C06_base32`, `C06_base32_shape`:
+    their hypotheses hold together on `exMd` — `dump`, `infohash`, `infohash_base32` succeed, the
+    digest function is 20 bytes long — and the span reported for `info` is (13, 33):
+    `d4:name…16384e` starts right after `d1:ai5e4:info`. -/
+example : wf (.dict (ensureInfo exMd)) = true ∧ (∀ x, (exH x).length = 20) ∧
+    dump exEnv exMd true = .ok exDump ∧
+    infohash exEnv exH exMd = .ok (List.replicate 20 [50, 49]).flatten ∧
+    infohashBase32 exEnv exH exMd = .ok ((List.replicate 4 [69, 69, 81, 83, 67, 73, 74, 66]).flatten) ∧
+    spanOf exEnv.lim kInfo exDump = some (13, 33) :=
+  ⟨by decide, fun x => by simp [exH], ok_of_toOption (by decide +kernel),
+   ok_of_toOption (by decide +kernel), ok_of_toOption (by decide +kernel), by decide +kernel⟩
 
 /-- non-vacuity of `C06_canonical`: a metainfo with a bool, a float, a datetime, a tuple and a
     non-ASCII key is well-formed and dumps successfully. -/
